@@ -198,6 +198,7 @@ class Session:
         gc_was = gc.isenabled()
         gc.disable()
         self.ctx = Ctx(loop, faults=self.faults, timeline=self.timeline)
+        self.ctx.stage_status = bool(getattr(self.scn, "params", {}).get("ss"))  # stage()/unstage() of the fakes return a Status
         sched = self.sched = Sched(loop, env=Env(self), horizon=self.scn.horizon)
         core.SCHED = sched
         sched.on_inject = self._on_inject
@@ -348,8 +349,13 @@ class Session:
         rec["nmsgs"] = len(self.msgs)
         self.calls.append(rec)
         self.timeline.append(("ret", name, rec["outcome"], _exc_name(rec["exc"]), rec["state_after"]))
-        # the real loop thread keeps running while the caller thinks
-        self.sched.drain()
+        # the real loop thread keeps running while the caller thinks (scenarios with quick_caller=True issue the next
+        # call at once: ready callbacks run, virtual time does not pass, pending timers fire during the next call)
+        self.loop.no_time_advance = bool(getattr(self.scn, "quick_caller", False))
+        try:
+            self.sched.drain()
+        finally:
+            self.loop.no_time_advance = False
         rec["state_drained"] = str(RE.state)
         rec["snap"] = {
             "subs": {n: [getattr(cb, "__qualname__", type(cb).__name__) for cb in dev.subs] for n, dev in self.ctx.devices.items() if hasattr(dev, "subs")},
